@@ -161,7 +161,7 @@ def _run_lines(cmd, lines, env=None, timeout=3600):
     return p.returncode, p.stdout, p.stderr
 
 
-def eval_ops(ops, exe, key, shards=1, env=None):
+def eval_ops(ops, exe, key, shards=1, env=None, shard_timeout=900):
     """Run ops (list of dicts with id/op/args) through an evaluator; returns {id: result[key]}.
     Crashed shards are re-run op by op so that one crashing operation is isolated."""
     from concurrent.futures import ThreadPoolExecutor
@@ -172,7 +172,10 @@ def eval_ops(ops, exe, key, shards=1, env=None):
     def work(chunk):
         if not chunk:
             return {}
-        rc, out, err = _run_lines([exe], chunk, env=env)
+        try:
+            rc, out, err = _run_lines([exe], chunk, env=env, timeout=shard_timeout)
+        except subprocess.TimeoutExpired as te:
+            rc, out, err = -9, (te.stdout or b"").decode("utf-8", "replace") if isinstance(te.stdout, bytes) else (te.stdout or ""), ""
         got = {}
         for ln in out.splitlines():
             try:
@@ -188,7 +191,7 @@ def eval_ops(ops, exe, key, shards=1, env=None):
                 if oid in got:
                     continue
                 try:
-                    rc1, out1, err1 = _run_lines([exe], [ln], env=env, timeout=120)
+                    rc1, out1, err1 = _run_lines([exe], [ln], env=env, timeout=30)
                     j = None
                     for l2 in out1.splitlines():
                         try:
